@@ -71,6 +71,12 @@ def gen_one(rng, i, tier):
     yshape = rng.choice([[], [], [2], [2, 2]])
     ncomp = int(np.prod(yshape)) if yshape else 1
     cols = [gen_values(rng, n) for _ in range(ncomp)]
+    # count-valued metrics (tp, fp, ...) arrive as integer arrays: Scores.bootstrap_metric allocates the replicates in
+    # the metric's own dtype, so every method must cope with int64 replicates (limits are still real-valued quantiles)
+    int_dtype = rng.random() < 0.15
+    if int_dtype:
+        hi_ = rng.choice([3, 12, 60, 1000])
+        cols = [[float(rng.randint(0, hi_)) for _ in range(n)] for _ in range(ncomp)]
     method = rng.choice(METHODS)
     th = []
     for c in cols:
@@ -89,7 +95,7 @@ def gen_one(rng, i, tier):
     return {"n": n, "yshape": yshape, "cols": cols, "th": th, "method": method, "alpha": alpha,
             "alpha2": alpha2, "alpha_array": method == "quantile" and rng.random() < 0.3,
             "c": rng.choice([0.5, 2.0, 2.5]), "d": rng.choice([0.0, 1.0, -0.75]),
-            "perm_seed": rng.randint(0, 10**6)}
+            "perm_seed": rng.randint(0, 10**6), "int_dtype": int_dtype}
 
 
 def nontrivial(inp):
@@ -121,6 +127,8 @@ def build(inp) -> Case:
     n, yshape, method = inp["n"], list(inp["yshape"]), inp["method"]
     ncomp = len(cols)
     theta = np.array(cols, dtype=float).T.reshape([n] + yshape)  # (N,)+Y
+    if inp.get("int_dtype") and not np.isnan(theta).any() and np.all(theta == np.round(theta)):
+        theta = theta.astype(np.int64)
     th = np.array(inp["th"], dtype=float).reshape(yshape)
     alpha = inp["alpha"]
     pre = []
@@ -219,6 +227,8 @@ def build(inp) -> Case:
     lines = [mkline(j) for j in range(ncomp)]
     inp["_evals"] = ncomp * 6
     tags = [method, f"Y={yshape}", f"N={n}"]
+    if theta.dtype.kind == "i":
+        tags.append("int64-replicates")
     if any(math.isnan(x) for c in cols for x in c):
         tags.append("nan-replicates")
 
